@@ -218,7 +218,31 @@ def _mentions_build_name(ctx, e, func):
                     isinstance(g, Func) and g.cls == ctx.R.cache
                     for g in ctx.prog.resolve_call(n, func)):
             return True
+        # the getter turned into a property (inlined at load time): a read
+        # of the field it returned, on a cache
+        if isinstance(n, ast.Attribute) and isinstance(n.ctx, ast.Load) \
+                and n.attr in _build_name_fields(ctx) and \
+                ctx.R.cache in ctx.prog.type_of(n.value, func):
+            return True
     return False
+
+
+def _build_name_fields(ctx):
+    if 'bn_fields' not in ctx.memo:
+        out = {'_build_name'}
+        g = ctx.prog.funcs.get(ctx.R.cache + '.build_name')
+        if g is not None and any(
+                isinstance(d, ast.Name) and d.id == 'property'
+                for d in g.node.decorator_list):
+            out.add('build_name')       # read as an attribute
+        if g is not None:
+            out |= {x.attr for r in ast.walk(g.node)
+                    if isinstance(r, ast.Return) and r.value is not None
+                    for x in ast.walk(r.value)
+                    if isinstance(x, ast.Attribute) and isinstance(
+                        x.value, ast.Name) and x.value.id == g.self_name}
+        ctx.memo['bn_fields'] = out
+    return ctx.memo['bn_fields']
 
 
 def r15_4(ctx, rc):
